@@ -9,8 +9,9 @@
 //	ops     <n> {op} <confined> <m> {h<relpath> <d|f> h<content>}
 //	   op = w h<name> h<content> <ok>
 //	      | r h<name> <ok|notexist|isdir|notdir|other> h<content>
-//	      | l h<prefix> <k> {h<name>}
+//	      | l h<prefix> <context kind> <error surfaced> <k> {h<name>}
 //	      | c h<dst> h<src> <ok>
+//	multi   <n> {<root> <bucket> op} <confined> 6 x (<m> {h<relpath> <d|f> h<content>})
 //	resolve h<name> <in h<rel> | out>
 //	svc     <upload|merge|chart> ... (see caseSvc)
 package main
@@ -26,9 +27,11 @@ import (
 	"path/filepath"
 	"strconv"
 	"strings"
+	"sync"
 	"syscall"
 	"time"
 
+	"golang.org/x/telemetry/godev/internal/config"
 	"golang.org/x/telemetry/godev/internal/storage"
 	. "golang.org/x/telemetry/internal/verifh/vhlib"
 )
@@ -164,7 +167,8 @@ func newSandbox() *sandbox {
 	os.WriteFile(filepath.Join(s.dir, "sentinel"), []byte("sentinel"), 0666)
 	os.MkdirAll(filepath.Join(s.dir, "other-bucket", "a"), 0777)
 	os.WriteFile(filepath.Join(s.dir, "other-bucket", "a", "b"), []byte("other"), 0666)
-	b, err := storage.NewFSBucket(ctx, s.dir, "bkt")
+	// through the public constructor the services use (storage.NewBucket with cfg.LocalStorage)
+	b, err := storage.NewBucket(ctx, &config.Config{LocalStorage: s.dir}, "bkt")
 	if err != nil {
 		panic(err)
 	}
@@ -198,14 +202,16 @@ func (s *sandbox) confined() bool {
 	return true
 }
 
-func (s *sandbox) tree() []string {
+func (s *sandbox) tree() []string { return treeOf(s.bucketDir) }
+
+func treeOf(dir string) []string {
 	var fields []string
 	n := 0
-	filepath.WalkDir(s.bucketDir, func(p string, d fs.DirEntry, err error) error {
-		if err != nil || p == s.bucketDir {
+	filepath.WalkDir(dir, func(p string, d fs.DirEntry, err error) error {
+		if err != nil || p == dir {
 			return nil
 		}
-		rel, _ := filepath.Rel(s.bucketDir, p)
+		rel, _ := filepath.Rel(dir, p)
 		n++
 		if d.IsDir() {
 			fields = append(fields, HS(filepath.ToSlash(rel)), "d", H(nil))
@@ -220,7 +226,15 @@ func (s *sandbox) tree() []string {
 
 func (s *sandbox) close() { os.RemoveAll(s.base) }
 
-func doWrite(b storage.BucketHandle, name string, content []byte) bool {
+// A panic inside the bucket code is an observation (the operation failed in
+// the worst way), not a reason for the harness to die.
+func doWrite(b storage.BucketHandle, name string, content []byte) (ok bool) {
+	defer func() {
+		if recover() != nil {
+			out.Note("panic-in-bucket-code")
+			ok = false
+		}
+	}()
 	w, err := b.Object(name).NewWriter(ctx)
 	if err != nil {
 		return false
@@ -230,7 +244,13 @@ func doWrite(b storage.BucketHandle, name string, content []byte) bool {
 	return err == nil && err2 == nil
 }
 
-func doRead(b storage.BucketHandle, name string) (string, []byte) {
+func doRead(b storage.BucketHandle, name string) (tag string, data []byte) {
+	defer func() {
+		if recover() != nil {
+			out.Note("panic-in-bucket-code")
+			tag, data = "panic", nil
+		}
+	}()
 	r, err := b.Object(name).NewReader(ctx)
 	if err != nil {
 		switch {
@@ -242,7 +262,7 @@ func doRead(b storage.BucketHandle, name string) (string, []byte) {
 		return "other", nil
 	}
 	defer r.Close()
-	data, err := io.ReadAll(r)
+	data, err = io.ReadAll(r)
 	if err != nil {
 		if errors.Is(err, syscall.EISDIR) {
 			return "isdir", nil
@@ -252,25 +272,185 @@ func doRead(b storage.BucketHandle, name string) (string, []byte) {
 	return "ok", data
 }
 
-func doList(b storage.BucketHandle, prefix string) []string {
-	it := b.Objects(ctx, prefix)
-	var names []string
+// countCtx is a context that becomes cancelled after its Err method has been
+// consulted `after` times: a deterministic "cancelled in the middle of the
+// walk" for implementations that poll the context.
+type countCtx struct {
+	context.Context
+	mu    sync.Mutex
+	calls int
+	after int
+	done  chan struct{}
+}
+
+func (c *countCtx) Err() error {
+	c.mu.Lock()
+	defer c.mu.Unlock()
+	c.calls++
+	if c.calls > c.after {
+		select {
+		case <-c.done:
+		default:
+			close(c.done)
+		}
+		return context.Canceled
+	}
+	return nil
+}
+func (c *countCtx) Done() <-chan struct{} { return c.done }
+
+var ctxKinds = []string{"live", "live", "live", "cancelled", "expired", "midwalk", "consumer"}
+
+// doList lists with a context of the given kind and reports the names and
+// whether the iterator surfaced an error (anything but ErrObjectIteratorDone).
+func doList(b storage.BucketHandle, prefix, kind string) (names []string, lerr bool) {
+	defer func() {
+		if recover() != nil {
+			out.Note("panic-in-bucket-code")
+			names, lerr = []string{"!panic"}, false
+		}
+	}()
+	c := ctx
+	var cancel context.CancelFunc = func() {}
+	switch kind {
+	case "cancelled":
+		c, cancel = context.WithCancel(ctx)
+		cancel()
+	case "expired":
+		c, cancel = context.WithDeadline(ctx, time.Now().Add(-time.Second))
+	case "midwalk":
+		c = &countCtx{Context: ctx, after: rnd.Intn(6), done: make(chan struct{})}
+	case "consumer":
+		c, cancel = context.WithCancel(ctx)
+	}
+	defer cancel()
+	it := b.Objects(c, prefix)
 	for {
 		n, err := it.Next()
 		if errors.Is(err, storage.ErrObjectIteratorDone) {
-			break
+			return names, false
 		}
 		if err != nil {
-			names = append(names, "!error:"+err.Error())
-			break
+			return names, true
 		}
 		names = append(names, n)
+		if kind == "consumer" {
+			cancel() // the consumer gives up after the first name; it keeps reading what it is given
+		}
 	}
-	return names
 }
 
-func doCopy(b storage.BucketHandle, dst, src string) bool {
+func doCopy(b storage.BucketHandle, dst, src string) (ok bool) {
+	defer func() {
+		if recover() != nil {
+			out.Note("panic-in-bucket-code")
+			ok = false
+		}
+	}()
 	return storage.Copy(ctx, b.Object(dst), b.Object(src)) == nil
+}
+
+func listTokens(p, kind string, lerr bool, names []string) []string {
+	t := []string{"l", HS(p), kind, B(lerr), I(int64(len(names)))}
+	for _, n := range names {
+		t = append(t, HS(n))
+	}
+	return t
+}
+
+// Several buckets in one process: the same three bucket names (as NewAPI
+// opens them) under TWO storage roots, operations interleaved, handles
+// re-opened through NewBucket on the way.  A bucket is (root, name).
+func caseMulti() {
+	base, err := os.MkdirTemp(root, "m")
+	if err != nil {
+		panic(err)
+	}
+	defer os.RemoveAll(base)
+	os.WriteFile(filepath.Join(base, "outside.txt"), []byte("outside"), 0666)
+	bucketNames := []string{"up", "merged", "chart"}
+	var cfgs [2]*config.Config
+	var handles [2][3]storage.BucketHandle
+	var dirs [2][3]string
+	for r := 0; r < 2; r++ {
+		rootDir := filepath.Join(base, fmt.Sprintf("root%d", r))
+		os.MkdirAll(rootDir, 0777)
+		os.WriteFile(filepath.Join(rootDir, "sentinel"), []byte("sentinel"), 0666)
+		cfgs[r] = &config.Config{LocalStorage: rootDir, UploadBucket: bucketNames[0], MergedBucket: bucketNames[1], ChartDataBucket: bucketNames[2]}
+		api, err := storage.NewAPI(ctx, cfgs[r])
+		if err != nil {
+			panic(err)
+		}
+		handles[r] = [3]storage.BucketHandle{api.Upload, api.Merge, api.Chart}
+		for j := range bucketNames {
+			dirs[r][j] = filepath.Join(rootDir, bucketNames[j])
+		}
+	}
+	inBucket := func(rel string) bool {
+		for r := 0; r < 2; r++ {
+			for _, n := range bucketNames {
+				p := fmt.Sprintf("root%d/%s", r, n)
+				if rel == p || strings.HasPrefix(rel, p+"/") {
+					return true
+				}
+			}
+		}
+		return false
+	}
+	before := snapshot(base)
+	names := []string{"a", "a/b", "2024-01-01/0.5.json", "2024-01-01.json", "x/y/z", "b", genName(nil)}
+	nops := 8 + rnd.Intn(30)
+	var ops []string
+	for i := 0; i < nops; i++ {
+		r, j := rnd.Intn(2), rnd.Intn(3)
+		if rnd.Chance(15) { // a handler opens its bucket again (worker handleCopy does so per request)
+			h, err := storage.NewBucket(ctx, cfgs[r], bucketNames[j])
+			if err == nil {
+				handles[r][j] = h
+			}
+			out.Note("multi:bucket-reopened")
+		}
+		b := handles[r][j]
+		ops = append(ops, I(int64(r)), I(int64(j)))
+		name := Pick(rnd, names)
+		switch k := rnd.Intn(10); {
+		case k < 4:
+			c := genContent()
+			ops = append(ops, "w", HS(name), H(c), B(doWrite(b, name, c)))
+		case k < 7:
+			tag, data := doRead(b, name)
+			ops = append(ops, "r", HS(name), tag, H(data))
+		case k < 9:
+			p := Pick(rnd, []string{"", "a", "2024-01-01", "x/"})
+			kind := Pick(rnd, ctxKinds)
+			ns, lerr := doList(b, p, kind)
+			ops = append(ops, listTokens(p, kind, lerr, ns)...)
+		default:
+			src := Pick(rnd, names)
+			ops = append(ops, "c", HS(name), HS(src), B(doCopy(b, name, src)))
+		}
+	}
+	confined := true
+	after := snapshot(base)
+	for k, v := range after {
+		if !inBucket(k) && before[k] != v {
+			confined = false
+		}
+	}
+	for k := range before {
+		if _, ok := after[k]; !ok && !inBucket(k) {
+			confined = false
+		}
+	}
+	fields := []string{"multi", I(int64(nops))}
+	fields = append(fields, ops...)
+	fields = append(fields, B(confined))
+	for r := 0; r < 2; r++ {
+		for j := range bucketNames {
+			fields = append(fields, treeOf(dirs[r][j])...)
+		}
+	}
+	out.Case(true, fields...)
 }
 
 func caseOps() {
@@ -308,14 +488,13 @@ func caseOps() {
 		nops++
 	}
 	list := func(p string) {
-		names := doList(s.b, p)
+		kind := Pick(rnd, ctxKinds)
+		names, lerr := doList(s.b, p, kind)
 		if p != "" && !strings.HasSuffix(p, "/") {
 			cutmid = true
 		}
-		ops = append(ops, "l", HS(p), I(int64(len(names))))
-		for _, n := range names {
-			ops = append(ops, HS(n))
-		}
+		out.Note("list-context:" + kind)
+		ops = append(ops, listTokens(p, kind, lerr, names)...)
 		nops++
 	}
 	for nops < target {
@@ -556,8 +735,10 @@ func main() {
 	shared := newSandbox()
 	for i := 0; i < n; i++ {
 		switch {
-		case i%10 < 6:
+		case i%10 < 5:
 			caseOps()
+		case i%10 < 6:
+			caseMulti()
 		case i%10 < 8:
 			caseResolve(shared)
 		default:
